@@ -20,17 +20,17 @@ def _mk_sync_daemon(sim: Any, hid: str, c: dict[str, Any]):
     # a synchronous daemon runs in a thread of the executor (a virtual thread here): it cannot be cancelled, only asked
     from sim import vthreads
 
-    def body(stopped, **_):
-        sim.rec('d.enter', h=hid)
+    def body(stopped, uid=None, **_):
+        sim.rec('d.enter', h=hid, uid=uid)
         how = 'returned'
         try:
             if c['reaction'] == 'selfexit':
                 stopped.wait(c['after'])
                 if stopped:
-                    sim.rec('d.flagseen', h=hid, reasons=str(stopped.reason))
+                    sim.rec('d.flagseen', h=hid, uid=uid, reasons=str(stopped.reason))
                 return
             stopped.wait()
-            sim.rec('d.flagseen', h=hid, reasons=str(stopped.reason))
+            sim.rec('d.flagseen', h=hid, uid=uid, reasons=str(stopped.reason))
             if c['reaction'] == 'obey':
                 if c.get('after'): vthreads.sleep(c['after'])
                 return
@@ -38,7 +38,7 @@ def _mk_sync_daemon(sim: Any, hid: str, c: dict[str, Any]):
         except vthreads.Killed:
             how = 'killed'; raise
         finally:
-            sim.rec('d.exit', h=hid, how=how)
+            sim.rec('d.exit', h=hid, uid=uid, how=how)
     body.__name__ = body.__qualname__ = hid
     return body
 
@@ -48,17 +48,17 @@ def make_daemon_fn(sim: Any, hid: str, c: dict[str, Any]):
     if c.get('sync'):
         return _mk_sync_daemon(sim, hid, c)
 
-    async def body(stopped, **_):
-        sim.rec('d.enter', h=hid)
+    async def body(stopped, uid=None, **_):
+        sim.rec('d.enter', h=hid, uid=uid)
         how = 'returned'
         try:
             if c['reaction'] == 'selfexit':      # returns on its own after a while; notes the stop flag if it comes first
                 await stopped.wait(c['after'])
                 if stopped:
-                    sim.rec('d.flagseen', h=hid, reasons=str(stopped.reason))
+                    sim.rec('d.flagseen', h=hid, uid=uid, reasons=str(stopped.reason))
                 return
             await stopped.wait()
-            sim.rec('d.flagseen', h=hid, reasons=str(stopped.reason))
+            sim.rec('d.flagseen', h=hid, uid=uid, reasons=str(stopped.reason))
             if c['reaction'] == 'obey':
                 if c.get('after'): await asyncio.sleep(c['after'])
                 return
@@ -66,16 +66,16 @@ def make_daemon_fn(sim: Any, hid: str, c: dict[str, Any]):
                 try:
                     await asyncio.get_running_loop().create_future()
                 except asyncio.CancelledError:
-                    sim.rec('d.cancel', h=hid)
+                    sim.rec('d.cancel', h=hid, uid=uid)
                     if c['reaction'] == 'cancel':
                         how = 'cancelled'; raise
                     # 'ignore': swallows cancellation and keeps going
         except asyncio.CancelledError:
             if how != 'cancelled':
-                sim.rec('d.cancel', h=hid); how = 'cancelled'
+                sim.rec('d.cancel', h=hid, uid=uid); how = 'cancelled'
             raise
         finally:
-            sim.rec('d.exit', h=hid, how=how)
+            sim.rec('d.exit', h=hid, uid=uid, how=how)
     body.__name__ = body.__qualname__ = hid
     return body
 
